@@ -4966,6 +4966,7 @@ class Entity(object, metaclass=EntityMeta):
         assert obj._status_ not in created_or_deleted_statuses
         cache = obj._session_cache_
         assert cache is not None and cache.is_alive
+        if unpickling and not avdict: return  # a pickled pk-only object stays a seed: its row was never loaded
         cache.seeds[obj._pk_attrs_].discard(obj)
         if not avdict: return
 
